@@ -39,8 +39,12 @@ from vlib import canon
 
 
 def gen_cases(rng, n):
-    return [{"op": "pb", "seed": rng.randrange(1 << 40), "fmt": "pb", "edge": rng.random() < 0.3,
-             "variant": "defaults" if i % 2 == 0 else "twins"} for i in range(n)]
+    out = [{"op": "pb", "seed": rng.randrange(1 << 40), "fmt": "pb", "edge": rng.random() < 0.3,
+            "variant": "defaults" if i % 2 == 0 else "twins"} for i in range(n)]
+    for c in out:
+        if rng.random() < 0.25:
+            c["twice"] = rng.choice(["full", "scenario"])
+    return out
 
 
 def plain_shape(r, s):
